@@ -1,4 +1,350 @@
-//! C16 stack-level part (E3); filled in with the world explorer.
-use mc_core::{Report, Tier};
+//! C16 stack-level part (E3): close()/term() injected after every prefix of API-call scripts.
 
-pub fn add_world_subs(_rep: &mut Report, _tier: Tier) {}
+use crate::stack::{self, msg};
+use mc_core::par::{self, Case};
+use mc_core::world::{self, settle_n, Way};
+use mc_core::{Report, Sub, Tier};
+use rzmq::socket::options as o;
+use rzmq::{Context, Socket, SocketType};
+use serde_json::{json, Value};
+use std::time::Duration;
+use tokio::time::Instant;
+
+#[derive(Clone, Copy, Debug, PartialEq, Eq, Hash)]
+enum Ev {
+  /// socket 1 binds inproc://c16
+  BindInproc,
+  /// socket 0 connects to inproc://c16
+  ConnectInproc,
+  /// ZMTP link between 0 (connector) and 1 (listener); held = handshake stuck half-way
+  Link(bool),
+  Send(usize),
+  /// a task blocked in recv() with RCVTIMEO=-1
+  RecvTask(usize),
+  /// a task blocked in send() with SNDTIMEO=-1 (no peer or full pipe)
+  SendTask(usize),
+  SetOpt(usize),
+  Monitor(usize),
+  DropHandle(usize),
+}
+
+#[derive(Clone, Copy, Debug, PartialEq, Eq, Hash)]
+enum Inject {
+  Close(usize),
+  Term,
+}
+
+#[derive(Clone, Copy, Debug, PartialEq, Eq, Hash)]
+enum Pair {
+  PushPull,
+  DealerRouter,
+  ReqRep,
+  PubSub,
+}
+
+#[derive(Debug, Default, Clone)]
+struct Out {
+  inject_ms: u64,
+  inject_returned: bool,
+  inject_err: Option<String>,
+  term_ms: u64,
+  term_returned: bool,
+  /// API calls after close/term that did not fail promptly
+  hanging_calls: Vec<String>,
+  succeeded_calls_after_close: Vec<String>,
+  rebind_ok: Option<bool>,
+  live_actors_after_term: usize,
+  blocked_unreleased: usize,
+  alive_tasks: usize,
+}
+
+fn run_script(pair: Pair, script: &[Ev], inj: Inject) -> world::WorldResult<Out> {
+  let script = script.to_vec();
+  world::run(1, move || async move {
+    let ctx = Context::new().expect("context");
+    let (t0, t1) = match pair {
+      Pair::PushPull => (SocketType::Push, SocketType::Pull),
+      Pair::DealerRouter => (SocketType::Dealer, SocketType::Router),
+      Pair::ReqRep => (SocketType::Req, SocketType::Rep),
+      Pair::PubSub => (SocketType::Pub, SocketType::Sub),
+    };
+    let mk = |t: SocketType| {
+      let ctx = ctx.clone();
+      async move { stack::mk(&ctx, t, &[(o::LINGER, 0), (o::SNDHWM, 1), (o::RCVHWM, 1)]).await }
+    };
+    let mut socks: Vec<Option<Socket>> = vec![Some(mk(t0).await), Some(mk(t1).await)];
+    // keep clones for the post-condition probes even if the script drops the application's handle
+    let probes: Vec<Socket> = socks.iter().map(|s| s.clone().unwrap()).collect();
+    let mut tasks: Vec<tokio::task::JoinHandle<bool>> = vec![];
+    let mut links = vec![];
+    let mut bound = false;
+    for e in &script {
+      match *e {
+        Ev::BindInproc => {
+          if let Some(s) = &socks[1] {
+            bound |= s.bind("inproc://c16").await.is_ok();
+          }
+        }
+        Ev::ConnectInproc => {
+          if let Some(s) = &socks[0] {
+            let _ = s.connect("inproc://c16").await;
+          }
+        }
+        Ev::Link(held) => {
+          if let (Some(a), Some(b)) = (&socks[0], &socks[1]) {
+            let l = stack::link_pair(a, b, 256).await;
+            if held {
+              l.hold_both();
+              l.allow(Way::AtoB, 10);
+              l.allow(Way::BtoA, 10);
+            }
+            links.push(l);
+          }
+        }
+        Ev::Send(i) => {
+          if let Some(s) = &socks[i] {
+            let s = s.clone();
+            // bounded: a send that would block is not allowed to hang the script
+            let _ = tokio::time::timeout(Duration::from_millis(20), s.send(msg(b"x", false))).await;
+          }
+        }
+        Ev::RecvTask(i) => {
+          if let Some(s) = &socks[i] {
+            let s = s.clone();
+            tasks.push(tokio::spawn(async move {
+              // returns true when the call came back (with whatever result)
+              let _ = s.recv().await;
+              true
+            }));
+          }
+        }
+        Ev::SendTask(i) => {
+          if let Some(s) = &socks[i] {
+            let s = s.clone();
+            tasks.push(tokio::spawn(async move {
+              for _ in 0..64 {
+                if s.send(msg(&[7u8; 600], false)).await.is_err() {
+                  break;
+                }
+              }
+              true
+            }));
+          }
+        }
+        Ev::SetOpt(i) => {
+          if let Some(s) = &socks[i] {
+            let _ = s.set_option(o::SNDHWM, 5i32).await;
+          }
+        }
+        Ev::Monitor(i) => {
+          if let Some(s) = &socks[i] {
+            let _ = s.monitor_default().await;
+          }
+        }
+        Ev::DropHandle(i) => {
+          socks[i] = None;
+        }
+      }
+      settle_n(2).await;
+    }
+    let mut out = Out::default();
+    // ---- injection ----
+    let t = Instant::now();
+    let r = match inj {
+      Inject::Close(i) => tokio::time::timeout(Duration::from_secs(60), probes[i].close()).await.map(|r| r.map_err(|e| e.to_string())),
+      Inject::Term => tokio::time::timeout(Duration::from_secs(60), ctx.term()).await.map(|r| r.map_err(|e| e.to_string())),
+    };
+    out.inject_ms = t.elapsed().as_millis() as u64;
+    match r {
+      Ok(Ok(())) => out.inject_returned = true,
+      Ok(Err(e)) => {
+        out.inject_returned = true;
+        out.inject_err = Some(e);
+      }
+      Err(_) => out.inject_returned = false,
+    }
+    settle_n(2).await;
+    // ---- post-conditions on the closed socket(s) ----
+    let closed: Vec<usize> = match inj {
+      Inject::Close(i) => vec![i],
+      Inject::Term => vec![0, 1],
+    };
+    for &i in &closed {
+      let s = &probes[i];
+      macro_rules! probe {
+        ($name:expr, $fut:expr) => {
+          match tokio::time::timeout(Duration::from_secs(2), $fut).await {
+            Err(_) => out.hanging_calls.push(format!("{}(socket {})", $name, i)),
+            Ok(Ok(_)) => out.succeeded_calls_after_close.push(format!("{}(socket {})", $name, i)),
+            Ok(Err(_)) => {}
+          }
+        };
+      }
+      probe!("send", s.send(msg(b"late", false)));
+      probe!("recv", s.recv());
+      probe!("send_multipart", s.send_multipart(vec![msg(b"late", false)]));
+      probe!("recv_multipart", s.recv_multipart());
+      probe!("bind", s.bind("inproc://c16-late"));
+      probe!("connect", s.connect("inproc://c16"));
+      probe!("set_option", s.set_option(o::SNDHWM, 9i32));
+    }
+    // a name bound by a closed socket must be free again
+    if bound && closed.contains(&1) && matches!(inj, Inject::Close(_)) {
+      let fresh = stack::mk(&ctx, t1, &[(o::LINGER, 0)]).await;
+      out.rebind_ok = Some(fresh.bind("inproc://c16").await.is_ok());
+    }
+    // ---- final term: everything must wind down ----
+    let t = Instant::now();
+    out.term_returned = tokio::time::timeout(Duration::from_secs(60), ctx.term()).await.is_ok();
+    out.term_ms = t.elapsed().as_millis() as u64;
+    settle_n(2).await;
+    out.live_actors_after_term = rzmq::verif::runtime::live_actor_count(&ctx);
+    // blocked application calls must have been released
+    for h in tasks {
+      match tokio::time::timeout(Duration::from_secs(2), h).await {
+        Ok(_) => {}
+        Err(_) => out.blocked_unreleased += 1,
+      }
+    }
+    // the harness's own tasks and handles go away before the remaining tasks are counted
+    for l in &links {
+      l.destroy();
+    }
+    drop(links);
+    drop(probes);
+    drop(socks);
+    settle_n(4).await;
+    out.alive_tasks = tokio::runtime::Handle::current().metrics().num_alive_tasks();
+    out
+  })
+}
+
+fn scripts(depth: usize) -> Vec<Vec<Ev>> {
+  let alpha = [
+    Ev::BindInproc,
+    Ev::ConnectInproc,
+    Ev::Link(false),
+    Ev::Link(true),
+    Ev::Send(0),
+    Ev::RecvTask(1),
+    Ev::RecvTask(0),
+    Ev::SendTask(0),
+    Ev::SetOpt(0),
+    Ev::Monitor(1),
+    Ev::DropHandle(0),
+    Ev::DropHandle(1),
+  ];
+  let mut out: Vec<Vec<Ev>> = vec![vec![]];
+  let mut level: Vec<Vec<Ev>> = vec![vec![]];
+  for _ in 0..depth {
+    let mut next = vec![];
+    for s in &level {
+      for a in alpha {
+        // prune: at most one link / bind / connect; nothing on a dropped handle
+        let dup = matches!(a, Ev::Link(_)) && s.iter().any(|e| matches!(e, Ev::Link(_))) || (a == Ev::BindInproc && s.contains(&a)) || (a == Ev::ConnectInproc && (s.contains(&a) || !s.contains(&Ev::BindInproc)));
+        let on_dropped = match a {
+          Ev::Send(i) | Ev::RecvTask(i) | Ev::SendTask(i) | Ev::SetOpt(i) | Ev::Monitor(i) | Ev::DropHandle(i) => s.contains(&Ev::DropHandle(i)),
+          Ev::Link(_) => s.iter().any(|e| matches!(e, Ev::DropHandle(_))),
+          Ev::BindInproc => s.contains(&Ev::DropHandle(1)),
+          Ev::ConnectInproc => s.contains(&Ev::DropHandle(0)),
+        };
+        if dup || on_dropped {
+          continue;
+        }
+        let mut s2 = s.clone();
+        s2.push(a);
+        next.push(s2);
+      }
+    }
+    out.extend(next.iter().cloned());
+    level = next;
+  }
+  out
+}
+
+fn judge(o: &Out, inj: Inject) -> Vec<(&'static str, String)> {
+  let mut v = vec![];
+  if !o.inject_returned || o.inject_ms > 5000 {
+    v.push(("close-or-term-too-slow", format!("{:?} took {} ms virtual (returned: {})", inj, o.inject_ms, o.inject_returned)));
+  }
+  if !o.term_returned || o.term_ms > 5000 {
+    v.push(("final-term-too-slow", format!("term() took {} ms virtual (returned: {})", o.term_ms, o.term_returned)));
+  }
+  if !o.hanging_calls.is_empty() {
+    v.push(("call-on-closed-socket-hangs", format!("{:?}", o.hanging_calls)));
+  }
+  if !o.succeeded_calls_after_close.is_empty() {
+    v.push(("call-on-closed-socket-succeeds", format!("{:?}", o.succeeded_calls_after_close)));
+  }
+  if o.rebind_ok == Some(false) {
+    v.push(("inproc-name-not-released", "inproc://c16 cannot be bound again after its binder was closed".into()));
+  }
+  if o.live_actors_after_term != 0 {
+    v.push(("actors-alive-after-term", format!("{} actors still registered after term() returned", o.live_actors_after_term)));
+  }
+  if o.blocked_unreleased > 0 {
+    v.push(("blocked-call-not-released", format!("{} application task(s) blocked in send()/recv() were still blocked 2 s virtual after term() returned", o.blocked_unreleased)));
+  }
+  if o.alive_tasks > o.blocked_unreleased && o.term_returned {
+    v.push(("tasks-alive-after-term", format!("{} tokio tasks (beyond the {} blocked application tasks) still alive after term() returned and all handles were dropped", o.alive_tasks - o.blocked_unreleased, o.blocked_unreleased)));
+  }
+  v
+}
+
+pub fn replay(w: &Value) -> Result<String, String> {
+  let pair = [Pair::PushPull, Pair::DealerRouter, Pair::ReqRep, Pair::PubSub].into_iter().find(|p| w["pair"] == format!("{:?}", p)).ok_or("unknown pair")?;
+  let inj = [Inject::Close(0), Inject::Close(1), Inject::Term].into_iter().find(|p| w["inject"] == format!("{:?}", p)).ok_or("unknown inject")?;
+  let script = scripts(4).into_iter().find(|s| w["script"] == format!("{:?}", s)).ok_or("unknown script")?;
+  let r = run_script(pair, &script, inj);
+  if !r.panics.is_empty() {
+    return Err(format!("panics: {:?}", r.panics));
+  }
+  let o = r.result.ok_or("world did not finish")?;
+  let v = judge(&o, inj);
+  if v.is_empty() {
+    Ok(format!("world completes without violation: {:?}", o))
+  } else {
+    Err(format!("{:?} -- {:?}", v, o))
+  }
+}
+
+pub fn add_world_subs(rep: &mut Report, tier: Tier) {
+  rep.assume("E3: close()/term() are injected at quiescence points after every prefix of the scripts, and while recv()/send() calls are blocked in their own tasks; term/close must return within 5 s virtual (well inside Context::term's hidden 10 s straggler timeout, which would otherwise mask a hang)");
+  let depth = tier.pick(3, 4);
+  let sc = scripts(depth);
+  let mut work = vec![];
+  for pair in [Pair::PushPull, Pair::DealerRouter, Pair::ReqRep, Pair::PubSub] {
+    for (si, _) in sc.iter().enumerate() {
+      for inj in [Inject::Close(0), Inject::Close(1), Inject::Term] {
+        work.push((pair, si, inj));
+      }
+    }
+  }
+  let mut sub = Sub::new("close-term-injection", "E3");
+  sub.rule = "case = one world: two sockets of one context, an API-call script (bind/connect inproc, ZMTP link with free or held handshake, send, blocked recv task, blocked send task, set_option, monitor, handle drop) followed by close(socket) or term(); non-trivial = some connection or blocked call existed at injection time; oracle: the injected call and the final term() return within 5 s virtual without panicking, every later API call on a closed socket fails within 2 s virtual, a closed socket's inproc name can be bound again, the context's actor count is 0 after term and blocked application calls were released".into();
+  sub.bounds = json!({"script_depth": depth, "scripts": sc.len(), "worlds": work.len()});
+  par::enumerate(&mut sub, work.len(), |i| {
+    let (pair, si, inj) = work[i];
+    let script = &sc[si];
+    let r = run_script(pair, script, inj);
+    let wit = json!({"explorer": "e3", "pair": format!("{:?}", pair), "script": format!("{:?}", script), "inject": format!("{:?}", inj)});
+    let mut c = Case { steps: script.len() as u64 + 2, ..Default::default() };
+    c.nontrivial = script.iter().any(|e| matches!(e, Ev::Link(_) | Ev::ConnectInproc | Ev::RecvTask(_) | Ev::SendTask(_)));
+    let class = format!("{:?}:{:?}", pair, inj);
+    for p in &r.panics {
+      c.violations.push(("panic".into(), format!("{}:{}", p.rsplit(" @ ").next().map(mc_core::short_loc).unwrap_or_default(), class), p.clone(), wit.clone()));
+    }
+    if let Some(o) = r.result {
+      c.outcome = mc_core::digest(&(o.inject_returned, o.term_returned, o.hanging_calls.len(), o.live_actors_after_term));
+      c.state = mc_core::digest(&(format!("{:?}{:?}", pair, inj), script.len(), o.inject_ms / 100, o.live_actors_after_term));
+      for (clause, d) in judge(&o, inj) {
+        c.violations.push((clause.into(), class.clone(), d, wit.clone()));
+      }
+      if i % 2003 == 0 {
+        c.sample = Some(json!({"case": wit, "inject_ms": o.inject_ms, "term_ms": o.term_ms}));
+      }
+    }
+    c
+  });
+  rep.add(sub);
+}
